@@ -10,6 +10,11 @@ NOTE = ("Trusted: Lean 4.33 kernel; axioms propext/Classical.choice/Quot.sound o
         "-O2 build (thorough: also -O0 and -march=native, all alignments). Constants and README tables are regenerated from "
         "/repo on every run (tools/gen.py). Clauses not yet carried by a theorem are listed in the evidence under not_yet_proved.")
 CLAIMED = {
+ "C10": ("Theorems: packed (row,col) round-trips for all 32-bit pairs and fails exactly above; the pair byte decodes to the "
+         "encoded widths for all 72 combinations; the header decodes to (rows, cols) for all 64-bit counts and has the "
+         "announced length; a cell write is read back and leaves every other cell, the header and the buffer length "
+         "unchanged (byte-range disjointness + index injectivity). Real matrices are compared byte for byte with a "
+         "reference after every write", "Lean 4 proof (byte-range disjointness) + whole-buffer differential comparison"),
  "C08": ("Refinement theorem: for every finite history of add/remove/clear/bulk-add/remove-range from the empty bitmap the "
          "membership answers, every change report and the cardinality counter equal those of a mathematical set; the "
          "container type is proved unobservable for add/remove. The real varintBitmap is driven through random histories "
